@@ -141,6 +141,8 @@ type c26Ev struct { // what node A was given at one step
 	NAccBefore int  // accepted blocks (incl. genesis) before this step
 	Dirty      bool // the previous import on A was a rejection
 	OffHead    bool // the block's parent field is not the hash of A's head at that time
+	HeadDup    bool // the block IS A's head at that time (same header hash), imported again
+	HeadRoot   types.StateRoot
 }
 
 func cbCloneBlock(b types.Block) types.Block {
@@ -289,6 +291,10 @@ func c26Check(c *kit.Case, in c26Input) {
 		}
 
 		ev.OffHead = ev.Block.Header.Parent != acc[head].Hash
+		ev.HeadDup, ev.HeadRoot = head > 0 && ev.Hash == acc[head].Hash, acc[head].Root
+		if ev.HeadDup {
+			kind, ev.Kind = "dup", "dup"
+		}
 		root, ierr := cbImport(A, ev.Block)
 		ev.Accepted, ev.Root = ierr == nil, root
 		if ierr != nil {
@@ -321,8 +327,8 @@ func c26Check(c *kit.Case, in c26Input) {
 				c.Failf("HARNESS: cannot decode view after step %d: %v", si, err)
 			}
 			pidx := parent
-			if kind == "dup" || kind == "retry" {
-				pidx = head
+			if kind == "dup" {
+				pidx = acc[head].Parent
 			}
 			acc = append(acc, c26Acc{Hash: ev.Hash, Root: root, Parent: pidx, Block: ev.Block, KVs: kvs, View: view, Slot: uint32(ev.Block.Header.Slot)})
 			head = len(acc) - 1
@@ -413,7 +419,7 @@ func c26Check(c *kit.Case, in c26Input) {
 			if in.Genesis.Ancestry && strings.Contains(ierr.Error(), "finalized") && c26RejectedOffHeadBefore(evs, ev.Step) {
 				c.Known("KF-C26-2", detail)
 			}
-			if ev.Kind == "dup" && ev.Dirty && ev.Root == acc[ai].Root && ai > 0 && acc[ai].Hash == acc[acc[ai].Parent].Hash {
+			if ev.HeadDup && ev.Dirty && ev.Root == ev.HeadRoot {
 				// B keeps its state (it rejected the duplicate): the comparison goes on
 				c.KnownNote("KF-C26-3", detail)
 				skippedOnB[ev.Step] = true
